@@ -296,7 +296,7 @@ class Spec(PropSpec):
 
     def gen_cases(self, ctx):
         quick = ctx.tier == "quick"
-        n = 220 if quick else 3000
+        n = 600 if quick else 6000
         if ctx.escalate:
             n *= 2
         perms = F.exhaustive_perms(4) if quick else F.exhaustive_perms(6, caps=(1, 2, 3, 4, 5))
@@ -304,8 +304,13 @@ class Spec(PropSpec):
             perms = ctx.rng.sample(perms, 260)
         cases = list(perms)
         for i in range(n):
-            r = i % 5
-            cases.append(F.gen_reqresp(ctx.rng) if r == 4 else (F.gen_random(ctx.rng) if r % 2 else F.gen_complete(ctx.rng)))
+            r = i % 6
+            if r == 4:
+                cases.append(F.gen_reqresp(ctx.rng))
+            elif r == 5:
+                cases.append(F.gen_parked(ctx.rng))
+            else:
+                cases.append(F.gen_random(ctx.rng) if r % 2 else F.gen_complete(ctx.rng))
         return cases
 
     def to_model(self, case, obs):
